@@ -2453,6 +2453,16 @@ func (e *nenum) stmt(fr *nframe, s ast.Stmt) {
 		}
 		// return of an inlined helper: deliver the results, then skip the rest of the helper
 		if target.retTo != nil {
+			// `return f(…)` handing on the several results of one call: result i of the helper is result i of the call
+			if len(rs) == 1 && len(target.retTo) > 1 {
+				if _, isCall := stripParens(x.Results[0]).(*ast.CallExpr); isCall {
+					call := rs[0]
+					rs = nil
+					for i := range target.retTo {
+						rs = append(rs, fmt.Sprintf("res%d(%s)", i, call))
+					}
+				}
+			}
 			for i, l := range target.retTo {
 				if id, ok := l.(*ast.Ident); ok && lname(id) == "_" {
 					continue
